@@ -13,6 +13,9 @@ Next == /\ l <= Len(Trace)
            ELSE LET m2 == BApply(model, e.o) IN
                 /\ (Has(e, "panic") => PrintT(<<"VIOL", l, "C19.PathBuildPanics">>))
                 /\ (~Has(e, "panic") /\ (\E r \in BRegs : e.regs[r] # m2[r]) => PrintT(<<"VIOL", l, "C19.PathStepsIndependent">>))
+                \* Path.HasPrefix / Path.Equals between any two registers are the prefix / equality relations of the step sequences
+                /\ (Has(e, "hp") /\ (\E x, y \in BRegs : Has(e.hp[x], y) /\ e.hp[x][y] # (Len(m2[y]) <= Len(m2[x]) /\ SubSeq(m2[x], 1, Len(m2[y])) = m2[y])) => PrintT(<<"VIOL", l, "C19.PathHasPrefix">>))
+                /\ (Has(e, "eq") /\ (\E x, y \in BRegs : Has(e.eq[x], y) /\ e.eq[x][y] # (m2[x] = m2[y])) => PrintT(<<"VIOL", l, "C19.PathEquals">>))
                 /\ model' = m2
                 /\ cnt' = [cnt EXCEPT !.events = @ + 1, !.nontrivial = @ + (IF m2 # model THEN 1 ELSE 0)]
         /\ l' = l + 1 /\ UNCHANGED <<bregs, bhist>>
